@@ -108,6 +108,8 @@ type Job struct {
 	Timeout int            `json:"timeout_ms,omitempty"`
 	BudgetS int            `json:"budget_s,omitempty"`
 	Paths   int            `json:"path_limit,omitempty"`
+	// Redirect: library methods replaced by harness summaries (see Exec.redirect)
+	Redirect map[string]string `json:"redirect,omitempty"`
 }
 
 func (j *Job) String() string {
@@ -164,7 +166,7 @@ func runJob(p *Program, j *Job, trace bool, smtlog string, conc *replayVec) *Job
 	}
 	x := &Exec{TB: newTB(), prog: p.prog, timeoutMs: to, res: res, params: j.Params, want: j.Want, trace: trace, merge: true,
 		pathLimit: j.Paths, maxViol: 3, ufSeen: map[int]bool{}, pdom: map[*ssa.Function]map[*ssa.BasicBlock]*ssa.BasicBlock{},
-		mcache: map[[2]int]bool{}, violSeen: map[string]int{}, fbKinds: fallbackKinds(kind), concrete: conc}
+		mcache: map[[2]int]bool{}, violSeen: map[string]int{}, fbKinds: fallbackKinds(kind), concrete: conc, redirect: j.Redirect, entryPkg: pkg}
 	// the primary back end gets a short limit; whatever it cannot decide quickly goes to the
 	// other back ends with the full limit (z3 4.8 is the fastest per query but times out on
 	// some UF-heavy queries that z3 5.1 and cvc5 decide in under a second)
@@ -189,7 +191,9 @@ func runJob(p *Program, j *Job, trace bool, smtlog string, conc *replayVec) *Job
 	}
 	st := &State{globals: map[*ssa.Global]int{}, heap: map[int]Value{}}
 	// package initialisers of the package under test (imports' init functions are skipped)
-	if initFn := pkg.Func("init"); initFn != nil && initFn.Blocks != nil {
+	// (the simulation's package initialiser only defines command-line flags through package
+	// flag; the harness uses none of them)
+	if initFn := pkg.Func("init"); initFn != nil && initFn.Blocks != nil && !strings.HasSuffix(j.Pkg, "internal/simulation") {
 		x.skipInits = true
 		st.frames = []*Frame{{fn: initFn, block: initFn.Blocks[0], env: map[ssa.Value]Value{}}}
 		outs := x.explore(st, func(s *State) bool { return false })
@@ -214,6 +218,8 @@ func runJob(p *Program, j *Job, trace bool, smtlog string, conc *replayVec) *Job
 	}()
 	return res
 }
+
+var simRedirect = map[string]string{"DBFT.Start": "vSumStart", "DBFT.Reset": "vSumReset", "DBFT.OnReceive": "vSumOnReceive", "DBFT.OnTimeout": "vSumOnTimeout"}
 
 func parseParams(s string) map[string]int {
 	pm := map[string]int{}
@@ -295,12 +301,15 @@ func main() {
 		budget := fs.Int("budget", 0, "wall-clock budget in seconds")
 		doReplay := fs.Bool("replay", false, "replay every violation natively and print the outcome")
 		fs.Parse(os.Args[2:])
-		p, err := loadProgram(".", "./timer")
+		p, err := loadProgram(".", "./timer", "./internal/simulation")
 		if err != nil {
 			fmt.Fprintln(os.Stderr, err)
 			os.Exit(2)
 		}
 		j := &Job{Pkg: *pkg, Entry: *entry, Params: parseParams(*params), Solver: *solver, Paths: *limit, BudgetS: *budget}
+		if strings.HasSuffix(*pkg, "internal/simulation") {
+			j.Redirect = simRedirect
+		}
 		progressEvery = 10 * time.Second
 		if *want != "" {
 			j.Want = strings.Split(*want, ",")
